@@ -37,12 +37,13 @@ for d in sorted(glob.glob(f'/verif/seeded/{pat}/')):
         subprocess.run(['git','-C','/repo','checkout','--','.'])
     caught=[r['check'] for r in res if r['exit']==1]
     out[name]={'property':own,'caught_by':caught,'results':res}
-    if not caught: missed.append(name)
+    if not caught and not meta.get('expected_uncaught'): missed.append(name)
+    if not caught and meta.get('expected_uncaught'): out[name]['known_limit']=True
 if pat!='*' and os.path.exists('/verif/seeded/MATRIX.json'):
     # a partial run updates its entries and keeps the others
     old=json.load(open('/verif/seeded/MATRIX.json'))
     merged=old.get('changes',{}); merged.update(out); out=merged
-    missed=sorted(n for n,v in out.items() if not v.get('caught_by'))
+    missed=sorted(n for n,v in out.items() if not v.get('caught_by') and not v.get('known_limit'))
 notown=sorted(n for n,v in out.items() if v.get('caught_by') and v.get('property') not in v['caught_by'])
 json.dump({'generated_by':'tools/seeded_matrix.sh','tier':'quick','changes':out,'missed':missed,'caught_only_by_another_propertys_check':notown},open('/verif/seeded/MATRIX.json','w'),indent=1)
 print('caught only by another property\'s check:',notown)
